@@ -103,6 +103,24 @@ def handle (op : String) (args : List String) : Option String :=
          | .ok a => showAddr a ++ "|" ++ showRes String.ofList (toText H st2.params a) ++ "|" ++
              showRes toHex (toScript st2.params a))
       | none => badArgs
+  -- For a script that (after canonicalisation when nc = 1) is `41 <65-byte key> ac`: the full outcome the
+  -- KNOWN defect D18 produces (address of hash160 of 64 key bytes; created under hist1, shown under hist1+hist2)
+  -- and the conforming outcome (Spec.Addr.barePubkeyAddr: hash160 of the whole key), separated by " ;; ".
+  -- "n/a" for every other script.
+  | "c12.bare.expect", [hist1, spk, nc, hist2] => some <| match parseHex? spk, parseBool? nc with
+      | some spk, some nc =>
+        let st1 := runHistory (histNames hist1)
+        let st2 := (splitList hist2 ',').foldl (fun st n => (selectParams st n).1) st1
+        let canon : Option Bytes := if nc then (match canonicalize spk with | .ok s => some s | .error _ => none) else some spk
+        (match canon with
+         | none => "n/a"
+         | some s =>
+           if s.length == 67 && s[0]? == some 0x41 && s[66]? == some 0xac then
+             let coded := bareUncompressedAsCoded H160 st1.params s
+             let conf : Res Addr := .ok (Spec.Addr.barePubkeyAddr H160 st1.params (slice s 1 66))
+             showFull st2.params coded ++ " ;; " ++ showFull st2.params conf
+           else "n/a")
+      | _, _ => badArgs
   | _, _ => none
 
 end Driver.C12
